@@ -1,5 +1,6 @@
 import TakVerif.Impl.Bot
 import TakVerif.Impl.Friendly
+import TakVerif.Impl.FPATotal
 import TakVerif.Impl.Minimax
 
 /-! The playtak bot end to end: the protocol loop of `playtak/bot/bot.go` (`Impl/Bot.lean`) run with one of the two
@@ -63,6 +64,9 @@ structure Conf where
   observe : Bool := false
   /-- `fixes/C07-fpa-record-notes.diff` applied (`false`: the tree before it, kept for the counterexamples) -/
   replay : Bool := true
+  /-- `fixes/C07-fpa-script-decline.diff` applied: a script of the double-stack / cairn rule that panics declines instead
+  (`Impl/FPATotal.lean`; `false`: the tree before it - /repo fefa081 -, kept for the counterexamples) -/
+  decline : Bool := true
 
 /-- `Bot.AcceptUndo()` -/
 def Conf.acceptUndo (c : Conf) : Bool :=
@@ -136,7 +140,9 @@ def glueOn (c : Conf) (fpa : Option (Variant × Rule)) (positions : List Pos) (m
     (chk : CheckOracle) : R (Option (Variant × Rule) × Action) :=
   match c.who with
   | .friendly _ =>
-    if c.replay then friendlyGetMove fpa { color := c.bot.color, size := c.size, positions := positions, moves := moves } p chk
+    if c.replay then
+      if c.decline then friendlyGetMoveD fpa { color := c.bot.color, size := c.size, positions := positions, moves := moves } p chk
+      else friendlyGetMove fpa { color := c.bot.color, size := c.size, positions := positions, moves := moves } p chk
     else friendlyGetMovePinned fpa { color := c.bot.color, size := c.size, positions := positions, moves := moves } p chk
   | .taktician tc => .ok (fpa, takticianGetMove tc c.bot.color c.size p mine)
 
